@@ -371,6 +371,14 @@ func TestC07(t *testing.T) {
 		nontrivial := false
 		var labels []string
 		for step := 0; step < n; step++ {
+			// a peer may answer a notification with an error (it is still connected and still
+			// monitoring: what it is told afterwards does not depend on that)
+			if rapid.IntRange(0, 5).Draw(t, "refusal") == 0 {
+				pi := rapid.IntRange(0, len(peers)-1).Draw(t, "refusingpeer")
+				peers[pi].peer.RefuseNext(1)
+				kase.History = append(kase.History, fmt.Sprintf("peer %d answers its next notification with an error", pi))
+				labels = append(labels, "peer-refuses-a-notification")
+			}
 			pre, post, ok := commit()
 			changes := refdb.Diff(s, pre, post)
 			if !ok {
